@@ -64,5 +64,9 @@ PROPS["C04"] = {
     "explanation": "family M: measure/factor algebra; family C: conditionals, transformations, likelihood factors, marginals, update",
 }
 
+_cond("C11", [("MC_C11", "MC_C11s_quick.cfg"), ("MC_C11", "MC_C11k_quick.cfg")],
+      "TLC explores every order of sequential updating as interleavings of the session machine, plus the joint route and the likelihood-factor route, and proves at completion that posterior and accumulated evidence equal the reference from the semantic layer (normalised prior x likelihoods; for Kalman filtering the dense joint over all states and observations assembled in the specification); every behaviour (every order) is replayed into the code step by step.",
+      "static: Dw,Dy in {1,2}, N in {2,3} (all N! orders), classes Cond/CondDiag; Kalman: T=3, Dx,Dy in {1,2}, identity and general transitions")
+
 NOT_APPLICABLE = {}
 HOOK_COMMITS = []
